@@ -32,9 +32,11 @@ def facts_obligation(ctx):
         for k in sorted(set(g) | set(e)):
             if g.get(k) != e.get(k):
                 diffs.append(f"{pkg}.{k}: {json.dumps(g.get(k))} (expected {json.dumps(e.get(k))})")
-    ctx.obligation("facts/paging.json (setPaging, maxResults, eviction test in boltz and objectz) equals the committed expectation",
+    ctx.obligation("facts/paging.json (setPaging, maxResults, eviction test, float64 comparator branch chain in boltz and objectz) equals the committed expectation",
                    not diffs, "; ".join(diffs)[:600])
-    ctx.coverage["paging_facts"] = {pkg: {k: got[pkg].get(k) for k in ("recognised", "clampNegativeSkip", "overflowGuard", "evictStrict")}
+    ctx.coverage["paging_facts"] = {pkg: dict({k: got[pkg].get(k) for k in ("recognised", "clampNegativeSkip", "overflowGuard", "evictStrict")},
+                                              floatCmpRecognised=got[pkg].get("floatCmp", {}).get("recognised"),
+                                              floatCmpNanFirst=got[pkg].get("floatCmp", {}).get("nanFirst"))
                                     for pkg in got}
 
 
@@ -170,7 +172,49 @@ def row_variants(ds):
             g = list(f)
             g[8] = "C"
             out.append(join_rows(rows[:i] + [",".join(g)] + rows[i + 1:]))
+        if len(f) > 9 and f[9] != "O":
+            g = list(f)
+            g[9] = "O"
+            out.append(join_rows(rows[:i] + [",".join(g)] + rows[i + 1:]))
     return out
+
+
+def prov_variants(tok):
+    """smaller provider tokens: no provider; one value removed"""
+    if tok == "-":
+        return []
+    out = ["-"]
+    p = tok.split(".")
+    if p[0] in ("all", "any") and len(p) > 1:
+        for i in range(1, len(p)):
+            out.append(".".join(p[:i] + p[i + 1:]))
+    return out
+
+
+def filter_variants(tok):
+    """smaller filters: a sub-term of a nested filter (prefix notation over "~")"""
+    toks = tok.split("~")
+    if len(toks) == 1:
+        return []
+    out = []
+
+    def parse(i):
+        if toks[i] in ("and", "or"):
+            j = parse(i + 1)
+            k = parse(j)
+            out.append("~".join(toks[i + 1:j]))
+            out.append("~".join(toks[j:k]))
+            return k
+        if toks[i] == "not":
+            j = parse(i + 1)
+            out.append("~".join(toks[i + 1:j]))
+            return j
+        return i + 1
+    try:
+        parse(0)
+    except IndexError:
+        return []
+    return [o for o in out if o]
 
 
 def sort_variants(tok):
